@@ -33,6 +33,14 @@
    marker name JUNK export documents in which the replay harness widens the marker to 1 / 99 / 100 / 101 / 150 / 250
    never-selected members (names junk_i), in the document and - by the lemma - in the expected results alike.
 
+   Event kinds.  The statement speaks about "the event": the result is a function of (document, selectors) ONLY,
+   for every kind of event that carries a document - regular events, CHILD events (spawned by split or any other
+   Controller.Spawn user; their Root is the array element) and CHILD-PARENT events.  Time-out / unlock events carry
+   no document (nil Root) and are outside the property.  Mechanism switch M_AllDocumentKindsFiltered = TRUE (the
+   code: Do looks at event.Root only); the mutant FALSE = "only regular events are filtered" must be REJECTED by TLC
+   (FieldSelect_mutant_kinds.cfg).  The replay harness runs every case as a regular, a child and a child-parent
+   event, and a sample end to end through a running pipeline [split, keep_fields | remove_fields].
+
    One state = one CASE (family, document, selector list); the case is the only variable.               *)
 EXTENDS Integers, Sequences, FiniteSets, TLC, Json
 
@@ -40,7 +48,8 @@ CONSTANTS Fams,          \* sequence of scope families, see QuickFams / Thorough
           D_SwapDelete,  \* named deviation (TRUE = what the code does): deleting an object member moves the
                          \* object's last member into its place, so the key order of survivors changes
           Cap,           \* initial capacity of one per-depth delete buffer (100 in the code; small here)
-          M_DepthBuffersDisjoint   \* mechanism (TRUE = the code): every depth buffer has its own backing array
+          M_DepthBuffersDisjoint,  \* mechanism (TRUE = the code): every depth buffer has its own backing array
+          M_AllDocumentKindsFiltered   \* mechanism (TRUE = the code): Do filters every event that carries a document
 
 VARIABLES cs             \* [fam, doc, sels]; sels = <<>> while the selector list is not chosen yet
 
@@ -325,7 +334,12 @@ Untouched(k, r, d) == SubDoc(k, d) /\ SubDoc(r, d)
 Idempotent(k, r, P, d) == k = Keep(Norm(P), d) /\ r = Remove(Norm(P), d)
 
 \* residual: with an order-preserving delete the two algorithms ARE the declarative functions
-ImplExact(k, r, list, d) == ImplKeep(FALSE, list, d) = k /\ ImplRemove(FALSE, list, d) = r
+ImplExact(k, r, ek, er) == ek = k /\ er = r
+\* Do for an event of the given kind whose Root holds d: `res` is what the algorithm makes of d
+DocKinds == {"regular", "child", "child_parent"}
+DoResult(kind, res, d) == IF M_AllDocumentKindsFiltered \/ kind = "regular" THEN res ELSE d
+\* the result does not depend on the kind of the event that carries the document
+KindIndependent(k, r, ek, er, d) == \A kind \in DocKinds : DoResult(kind, ek, d) = k /\ DoResult(kind, er, d) = r
 \* faithful: as the code is (D_SwapDelete), they are the declarative functions up to the order of members
 ImplFaithful(k, r, mk, mr) == /\ Canon(mk) = Canon(k)
                               /\ Canon(mr) = Canon(r)
@@ -367,12 +381,15 @@ AllInv ==
         run == KeepRun(D_SwapDelete, list, d)
         mk == run.node
         mr == ImplRemove(D_SwapDelete, list, d)
+        ek == ImplKeep(FALSE, list, d)
+        er == ImplRemove(FALSE, list, d)
     IN /\ Named("ParseOK", ParseOK(list))
        /\ Named("NormOK", NormOK(ImplNorm(list), P))
        /\ Named("DeclIsStatement", DeclIsStatement(P, d))
        /\ Named("Untouched", Untouched(k, r, d))
        /\ Named("Idempotent", Idempotent(k, r, P, d))
-       /\ Named("ImplExact", ImplExact(k, r, list, d))
+       /\ Named("ImplExact", ImplExact(k, r, ek, er))
+       /\ Named("KindIndependent", KindIndependent(k, r, ek, er, d))
        /\ Named("ImplFaithful", ImplFaithful(k, r, mk, mr))
        /\ Named("BuffersClean", BuffersClean(run))
        /\ Named("WidthIndependent", WidthIndependent(k, r, P, d))
@@ -380,6 +397,9 @@ AllInv ==
 
 \* the property the spec mutant ~M_DepthBuffersDisjoint must violate (plain invariant, so TLC prints the case)
 MutantInv == Chosen => ImplKeep(FALSE, cs.sels, cs.doc) = Keep(SeqSet(cs.sels), cs.doc)
+\* the property the spec mutant ~M_AllDocumentKindsFiltered must violate
+MutantKindInv == Chosen => KindIndependent(Keep(SeqSet(cs.sels), cs.doc), Remove(SeqSet(cs.sels), cs.doc),
+                                           ImplKeep(FALSE, cs.sels, cs.doc), ImplRemove(FALSE, cs.sels, cs.doc), cs.doc)
 
 -----------------------------------------------------------------------------
 (* scopes.  Names: 1 = a, 2 = b, 3 = "a.b", 4 = "a.b.a", 5 = "b.a".  A family is documents x selector lists. *)
